@@ -96,13 +96,15 @@ func (s *Script) Check(funcsCheck map[string]FuncCheck) *errchain.PlError {
 
 func RunStmts(ctx *Task, nodes ast.Stmts) *errchain.PlError {
 	for _, node := range nodes {
+		// no statement starts once exit() was called, the signal fired,
+		// or a break/continue is pending
+		if ctx.StmtRetrun() {
+			return nil
+		}
+
 		if _, _, err := RunStmt(ctx, node); err != nil {
 			ctx.procExit = true
 			return err
-		}
-
-		if ctx.StmtRetrun() {
-			return nil
 		}
 	}
 	return nil
